@@ -2,7 +2,7 @@
 #include "hist.hpp"
 #include "tgen.hpp"
 
-enum { K_MARK = 40 };   // a: reset sender station, rdst_bcast   — ops before it are h, after it are c
+enum { K_MARK = 40, K_FLOOD = 41 };   // K_FLOOD a: first id, count (history before the Reset only)   // a: reset sender station, rdst_bcast   — ops before it are h, after it are c
 
 // the continuation c delivered to a never-used instance; per-step digests of the transmit events
 static std::vector<uint64_t> fresh_digests(const Case &c) {
@@ -57,11 +57,18 @@ static Verdict run(const Case &c) {
     // ---- h on P
     Shadow sh;
     size_t h_tx = 0;
-    bool h_obs = false, h_icon = false;
+    bool h_obs = false, h_icon = false, flooded = false;
     for (size_t i = 0; i < mark; i++) {
         const Op &op = c.ops[i];
         if (op.kind == K_ADVANCE) { vp_set_now_ms(vp_now_ms() + (uint64_t)op.arg(0)); continue; }
         if (op.kind == K_SETICON) { w.set_icon(op.blob); continue; }
+        if (op.kind == K_FLOOD) {   // a flood of pairwise distinct Probe/Train frames and no Query: whatever limit the responder hits, the Reset clears that too
+            Mac own = h.ownmac();
+            for (int64_t k = 0; k < std::min<int64_t>(op.arg(1), 3000); k++)
+                (void)w.deliver(P, mk_simple(own, mac_from_u64(0x0600CC000000ULL + (uint64_t)(op.arg(0) + k)), 0, (k & 1) ? OP_PROBE : OP_TRAIN, own, mac_from_u64(0x0600DD000000ULL + (uint64_t)((op.arg(0) + k) % 5)), 0));
+            h_obs = true; flooded = true;
+            continue;
+        }
         Built b = build_frame(h, op, sh);
         if (!b.is_frame) continue;
         if (b.frame.size() > h.mtu) b.frame.resize(h.mtu);
@@ -112,6 +119,7 @@ static Verdict run(const Case &c) {
     v.nontrivial = h_tx >= 2 && (h_obs || h_icon) && c_tx >= 2;
     if (h_obs) v.cls("h-recorded-observation");
     if (h_icon) v.cls("h-cached-icon");
+    if (flooded) v.cls("h-flooded-beyond-the-retention-cap");
     if (c_tx >= 2) v.cls("c-elicits>=2");
     return v;
 }
@@ -135,12 +143,14 @@ int main(int argc, char **argv) {
         h.icon_state = (int)*gx::pick({1, 1, 1, 1, 1, 0});
         Case c; h.to_case(c);
         c.ops = *hg::ops_gen(wh, 0, 60);
+        if (*gx::chance(6)) { Op f; f.kind = K_FLOOD; f.a = {*gx::range<int64_t>(0, 100000), *gx::pick({1023, 1024, 1025, 1026, 1100, 2100})}; c.ops.insert(c.ops.begin() + *gx::range<int>(0, (int)c.ops.size()), f); }
         Op m; m.kind = K_MARK; m.a = {*gx::range<int64_t>(0, 3), *gx::pick({0, 1}), *gx::pick({0, 1, 0xFFFF})};
         c.ops.push_back(m);
         // leftovers probes first, in generated order
         std::vector<Op> probes;
         if (*gx::chance(50)) { Op o; o.kind = K_SETICON; o.blob = *gx::bytes(1, 600); probes.push_back(o); }
-        { Op o; o.kind = K_QUERY; o.a = {*gx::range<int64_t>(0, 3), *hg::seq_gen()}; if (*gx::chance(70)) probes.push_back(o); }
+        { Op o; o.kind = K_PROBE; o.a = {*gx::range<int64_t>(0, 5), *gx::range<int64_t>(0, 2), *gx::pick({0, 1}), 0}; if (*gx::chance(50)) probes.push_back(o); }   // an observation right after the Reset ...
+        { Op o; o.kind = K_QUERY; o.a = {*gx::range<int64_t>(0, 3), *hg::seq_gen()}; if (*gx::chance(70)) probes.push_back(o); }                                      // ... must be in the first report
         { Op o; o.kind = K_EMIT; o.a = {*gx::range<int64_t>(0, 3), *hg::seq_gen(), -1}; o.blob = *hg::emit_descs(3); if (*gx::chance(70)) probes.push_back(o); }
         { Op o; o.kind = K_QLT; o.a = {*gx::range<int64_t>(0, 3), *hg::seq_gen(), 0x0E, *gx::pick({0, 1, 100}), 0}; if (*gx::chance(70)) probes.push_back(o); }
         { Op o; o.kind = K_DISCOVER; o.a = {*gx::range<int64_t>(0, 3), *gx::pick({0, 1}), *gx::pick({0, 0, 5}), 1, *gx::pick({0, 1}), 0, -1}; if (*gx::chance(80)) probes.push_back(o); }
